@@ -226,6 +226,13 @@ class Model:
         self.probes = {}         # form -> evaluated count
         self.subcalls = 0
         self.shadowed = 0        # lookups that skipped at least one lower definition
+        # re-entrant invocations: a template invoked (by name) while an activation of the
+        # same template is still in progress
+        self.frames = []         # [template name, an inner activation of it has ended]
+        self.reentered = 0       # activations started inside an activation of the same template
+        self.max_active = 0      # most activations of one template in progress at once
+        self.reentry_raised = 0  # such activations left through an exception
+        self.after_reentry = 0   # probes evaluated by an activation after an inner one ended
 
     # -- lookup
     def find(self, stack, name):
@@ -260,7 +267,21 @@ class Model:
                 inner = inner + [dict(v.defaults)]
             if v.tvars:
                 inner = inner + [dict(v.tvars)]
-            return Plain(Segs(self.render(v.ast, inner)))
+            outer = [f for f in self.frames if f[0] == v.name]
+            if outer:
+                self.reentered += 1
+                self.max_active = max(self.max_active, len(outer) + 1)
+            self.frames.append([v.name, False])
+            try:
+                return Plain(Segs(self.render(v.ast, inner)))
+            except ModelRaise:
+                if outer:
+                    self.reentry_raised += 1
+                raise
+            finally:
+                self.frames.pop()
+                if outer:
+                    outer[-1][1] = True
         return v
 
     # -- presentation
@@ -306,6 +327,8 @@ class Model:
                 out.append(n.s)
             elif isinstance(n, Probe):
                 self.probes[n.form] = self.probes.get(n.form, 0) + 1
+                if self.frames and self.frames[-1][1]:
+                    self.after_reentry += 1
                 if n.form == 'call':
                     self.resolve(stack, n.name)
                     continue
@@ -400,6 +423,28 @@ class Model:
 def segments_regex(segs):
     return re.compile(''.join(r'[^\[\]()]*' if s is WILD else re.escape(s) for s in segs),
                       re.S)
+
+
+_NONBRACKET = re.compile(r'[^\[\]()]*')
+
+
+def segments_match(segs, out):
+    """Same verdict as segments_regex(segs).fullmatch(out), without compiling a pattern as
+    long as the output: a wildcard stands for a run of non-bracket characters and is always
+    followed by the closing bracket of its probe, so matching it greedily is exact.  Falls
+    back to the pattern when a wildcard is followed by anything else."""
+    pos = 0
+    n = len(segs)
+    for i, s in enumerate(segs):
+        if s is WILD:
+            if i + 1 >= n or segs[i + 1] is WILD or segs[i + 1][:1] not in ('[', ']', '(', ')'):
+                return bool(segments_regex(segs).fullmatch(out))
+            pos = _NONBRACKET.match(out, pos).end()
+        elif out.startswith(s, pos):
+            pos += len(s)
+        else:
+            return False
+    return pos == len(out)
 
 
 def segments_text(segs):
